@@ -57,14 +57,23 @@
     every function pages of its own and refuses overlapping ones; `pages_apart` is the fact the proof needs.
 
   Proof method (nothing navigates the generated term):
-    1. unfold; `C.STACK` is irreducible here and generalised (omega must not look into `2 ^ 40`); name `msg_size` (`extract_lets`) and replace it
-       by `16 + el + tl`;
-    2. one `simp only` normalisation: calls ↦ `xans`/`xrec`, `decide`/`&&`/`==` ↦ propositions, widenings ↦ `toNat`;
-    3. `walk`: a guard that follows from the side conditions is passed (`omega`), a real decision splits the goal, a path
-       that contradicts the side conditions is closed (`omega`);
-    4. at a leaf the memory is some nest of stores and copies `M`; `leaf` reduces the goal to
+    1. unfold; `C.STACK` is irreducible here and generalised (omega compares atoms up to definitional equality and must
+       not look into `2 ^ 40`); name `msg_size` (`extract_lets`) and replace it by `16 + el + tl`;
+    2. `c_norm`: one `simp only` normalisation - calls ↦ `xans`/`xrec`; `decide`/`&&`/`==`/`!=` ↦ propositions; unsigned
+       comparisons ↦ `toNat`, signed ones ↦ `toInt`; literals on the left of `==` moved to the right;
+    3. `walk`: a condition of the generated term (then of the specification) that follows from the context, or whose
+       negation does, is passed (`omega`), a real decision splits the goal and prunes both sides, a path that
+       contradicts the side conditions is closed (`omega`);
+    4. at a leaf of `rtr_send_error_pdu` the memory is some nest of stores and copies `M`; `leaf` reduces the goal to
        `bytesOf M MSG n = errorReportBytes …` and `M = mem` outside; both are settled piecewise by rewriting with the
        `bytesOf_*_other/_at` lemmas (side conditions by `omega`), whatever the order of the stores.
+  Checked on modified copies of packets.c (translator re-run, see the report): copy order swapped, `len_enc_pdu` assigned
+  after the copy, header fields in another order, `msg_size` summed in another order, text length written through a local
+  pointer, `ERROR == t` via a local, `> 1` for `>= 2`, `RTR_SHUTDOWN == state`, return paths of rtr_send_pdu merged,
+  from_host's case distinction reordered, pages renumbered - all proofs hold; 14 semantic changes (text length one byte
+  off, length field off by one, wrong type / code / version, short copy, text taken from the PDU, length argument short,
+  missing Error-Report check, SHUTDOWN test before the conversion, `>= 0` as success, original sent instead of the copy,
+  7 bytes treated as a PDU, header not converted) - each breaks the link theorem of its function.
 -/
 import RtrProofs.CLink
 import RtrProofs.CLinkPdu
@@ -219,10 +228,7 @@ theorem ite_lhs {α : Sort _} {c : Prop} [Decidable c] {a b r : α} (h1 : c → 
   · rw [if_pos h]; exact h1 h
   · rw [if_neg h]; exact h2 h
 
-theorem ule_lit (k : Nat) (x : BitVec 32) (hk : k < 4294967296) : (BitVec.ofNat 32 k).ule x = decide (k ≤ x.toNat) := by
-  rw [BitVec.ule_eq_decide, BitVec.toNat_ofNat, Nat.mod_eq_of_lt hk]
-theorem ult_lit (k : Nat) (x : BitVec 32) (hk : k < 4294967296) : (BitVec.ofNat 32 k).ult x = decide (k < x.toNat) := by
-  rw [BitVec.ult_eq_decide, BitVec.toNat_ofNat, Nat.mod_eq_of_lt hk]
+/-! ### normal form of the generated conditions, and the walk down a decision tree -/
 
 theorem sext8_eq10 (x : BitVec 8) : (BitVec.signExtend 32 x = 10#32) = (x = 10#8) := by
   apply propext
@@ -231,11 +237,49 @@ theorem sext8_eq10 (x : BitVec 8) : (BitVec.signExtend 32 x = 10#32) = (x = 10#8
   have := x.isLt
   split <;> omega
 
-/-- walk down the guards of the generated term: a guard that holds by the side conditions is passed, the path on which it
-    fails is closed by `omega`; a real decision splits the goal -/
+theorem eq32_lit (x : BitVec 32) (k : Nat) (hk : k < 4294967296) : (x = BitVec.ofNat 32 k) = (x.toNat = k) := by
+  apply propext; rw [← BitVec.toNat_inj, BitVec.toNat_ofNat, Nat.mod_eq_of_lt hk]
+theorem zext64_eq_lit (x : BitVec 32) (k : Nat) (hk : k < 4294967296) :
+    (BitVec.setWidth 64 x = BitVec.ofNat 64 k) = (x.toNat = k) := by
+  apply propext; rw [← BitVec.toNat_inj, zext64_toNat, BitVec.toNat_ofNat, Nat.mod_eq_of_lt (by omega)]
+/-- a literal on the left of an equation goes to the right (`ERROR == t` is `t == ERROR`) -/
+theorem lit_eq_comm {n : Nat} (k : Nat) (x : BitVec n) : (BitVec.ofNat n k = x) = (x = BitVec.ofNat n k) :=
+  propext eq_comm
+
+theorem ite_rhs {α : Sort _} {c : Prop} [Decidable c] {a b l : α} (h1 : c → l = a) (h2 : ¬c → l = b) :
+    l = (if c then a else b) := by
+  by_cases h : c
+  · rw [if_pos h]; exact h1 h
+  · rw [if_neg h]; exact h2 h
+
+/-- normal form of the generated term: external calls as `xans`/`xrec`; `decide`, `&&`, `==`, `!=` as propositions;
+    unsigned comparisons as comparisons of `toNat`, signed ones of `toInt`; widenings and literals evaluated; comparisons
+    with the literals of these functions (0, 8, ERROR = 10) as statements about the narrow value -/
+local syntax "c_norm" "[" Lean.Parser.Tactic.simpLemma,* "]" : tactic
+local macro_rules
+  | `(tactic| c_norm [$ls,*]) =>
+    `(tactic| simp only [xcall_eq, xcallBuf_eq, xret_fold, zext64_toNat, Bool.and_eq_true, Bool.or_eq_true, decide_eq_true_eq,
+        beq_iff_eq, bne_iff_ne, ne_eq, BitVec.ult_eq_decide, BitVec.ule_eq_decide, BitVec.slt_eq_decide,
+        BitVec.sle_eq_decide, BitVec.toNat_ofNat, BitVec.toInt_zero, Nat.reducePow, Nat.reduceMod,
+        lit_eq_comm 0, lit_eq_comm 8, lit_eq_comm 9, lit_eq_comm 10, eq32_lit _ 0 (by decide),
+        zext64_eq_lit _ 8 (by decide), sext8_eq10, Nat.add_sub_cancel_left, List.cons_append, List.nil_append,
+        not_true_eq_false, not_false_eq_true, true_and, and_true, false_and, and_false, if_true, if_false, $ls,*])
+
+/-- walk down the decision tree of the generated term (left) and of the specification (right): a condition that follows
+    from the context, or whose negation does, is passed (`omega`); a real decision splits the goal and prunes both sides;
+    a path that contradicts the side conditions is closed (`omega`) -/
 local macro "walk" : tactic =>
-  `(tactic| repeat' (first | (with_reducible rfl) | omega | (refine Eq.trans (if_pos (by omega)) ?_) |
-      (refine ite_lhs ?_ ?_ <;> intro h_)))
+  `(tactic| repeat' (first
+      | (with_reducible rfl)
+      | omega
+      | ((with_reducible refine Eq.trans (if_pos ?hc_) ?_); (case hc_ => omega))
+      | ((with_reducible refine Eq.trans (if_neg ?hc_) ?_); (case hc_ => omega))
+      | ((with_reducible refine ite_lhs ?_ ?_) <;> intro h_ <;>
+          try simp only [h_, if_true, if_false, not_true_eq_false, not_false_eq_true, Bool.false_eq_true])
+      | ((with_reducible refine Eq.trans ?_ (Eq.symm (if_pos ?hc_))); (case hc_ => omega))
+      | ((with_reducible refine Eq.trans ?_ (Eq.symm (if_neg ?hc_))); (case hc_ => omega))
+      | ((with_reducible refine ite_rhs ?_ ?_) <;> intro h_ <;>
+          try simp only [h_, if_true, if_false, not_true_eq_false, not_false_eq_true, Bool.false_eq_true])))
 
 /-- a leaf of `rtr_send_error_pdu`: the memory `M` holds the report at `b` and is `mem` elsewhere -/
 theorem leaf {w : XW} {s : Sock} {rc : BitVec 32} {M mem : Mem} {b N : Nat} {n32 : BitVec 32} {report : List (BitVec 8)}
@@ -296,20 +340,14 @@ theorem rtr_send_error_pdu_eq (w : XW) (mem : Mem) (msize : Nat) (s : Sock) (ep 
   ( by_cases h2 : 2 ≤ el.toNat
     · have hty := Recv.rtr_get_pdu_type_at mem msize ep (by omega)
       by_cases h10 : mem (ep + 1) = 10#8
-      · simp only [hN, hty, h2, h10, xcall_eq, xret_fold, zext64_toNat, Bool.and_eq_true, decide_eq_true_eq, beq_iff_eq,
-          ule_lit 2 _ (by decide), ult_lit 0 _ (by decide), sext8_eq10, errorReportBytes_length, bytesOf_length, and_self,
-          if_true]
+      · c_norm [hN, hty, h2, h10, errorReportBytes_length, bytesOf_length, and_self]
         walk
-      · simp only [hN, hty, h2, h10, xcall_eq, xret_fold, zext64_toNat, Bool.and_eq_true, decide_eq_true_eq, beq_iff_eq,
-          ule_lit 2 _ (by decide), ult_lit 0 _ (by decide), sext8_eq10, errorReportBytes_length, bytesOf_length, and_false,
-          if_true, if_false]
+      · c_norm [hN, hty, h2, h10, errorReportBytes_length, bytesOf_length, and_false]
         walk
         all_goals (refine leaf hN ?_ ?_)
         all_goals first | close_frame | skip
         all_goals (subst hms; close_bytes)
-    · simp only [hN, h2, xcall_eq, xret_fold, zext64_toNat, Bool.and_eq_true, decide_eq_true_eq, beq_iff_eq,
-        ule_lit 2 _ (by decide), ult_lit 0 _ (by decide), sext8_eq10, errorReportBytes_length, bytesOf_length, false_and,
-        if_true, if_false]
+    · c_norm [hN, h2, errorReportBytes_length, bytesOf_length, false_and]
       walk
       all_goals (refine leaf hN ?_ ?_)
       all_goals first | close_frame | skip
@@ -484,7 +522,7 @@ def sendPduSpec (w : XW) (mem : Mem) (s : Sock) (len : BitVec 32) : Out :=
   if s.state = 9#32 then some (4294967295#32, mem', w1)
   else
     let w2 := xrec w1 "tr_send_all" (BitVec.setWidth 64 len :: 60#64 :: conv.map (BitVec.setWidth 64)) s
-    if (0#32).slt (xret (xans w1)) = true then some (0#32, mem', w2) else some (4294967295#32, mem', w2)
+    if 0 < (xret (xans w1)).toInt then some (0#32, mem', w2) else some (4294967295#32, mem', w2)
 
 /-- byte `j` of the destination of a copy -/
 theorem memcpy_at (m : Mem) (d s n j : Nat) (h : j < n) : C.memcpy m d s n (d + j) = m (s + j) := by
@@ -501,21 +539,13 @@ theorem bytesAt_memFill (m : Mem) (d n : Nat) (l : List (BitVec 8)) :
     C.bytesAt (C.memFill m d n l) d n = (Recv.takeD l n).map (BitVec.setWidth 64) := by
   rw [bytesAt_eq, bytesOf_memFill_at _ _ _ _ _ _ ⟨rfl, rfl⟩]
 
-/-- walk down both decision trees: the conditions of the generated term are decided one after the other, the
-    specification is pruned with each decision -/
-local macro "walk2" : tactic =>
-  `(tactic| repeat' (first | (with_reducible rfl) | omega | (refine Eq.trans (if_pos (by omega)) ?_) |
-      (refine ite_lhs ?_ ?_ <;> intro h_ <;>
-        try simp only [h_, if_true, if_false, not_true_eq_false, not_false_eq_true, Bool.false_eq_true])))
-
 theorem rtr_send_pdu_eq (w : XW) (mem : Mem) (msize : Nat) (s : Sock) (pdu : Nat) (len : BitVec 32)
     (h0 : 0 < len.toNat) (h1 : len.toNat ≤ 1048576) (hp : pdu + len.toNat ≤ msize) (hm : msize ≤ C.STACK) :
     C.rtr_send_pdu w mem msize s pdu len = sendPduSpec w mem s len := by
   unfold C.rtr_send_pdu sendPduSpec SP
   generalize C.STACK = S at *
-  simp only [xcall_eq, xcallBuf_eq, xret_fold, zext64_toNat, Bool.and_eq_true, decide_eq_true_eq, beq_iff_eq,
-    Nat.add_sub_cancel_left, memFill_memcpy, bytesAt_memFill, List.cons_append, List.nil_append]
-  walk2
+  c_norm [memFill_memcpy, bytesAt_memFill]
+  walk
 
 
 /-- SHUTDOWN: RTR_ERROR, nothing is handed to the transport (the only call is the conversion of the copy, which precedes
@@ -535,7 +565,7 @@ theorem send_pdu_sends {w : XW} {mem : Mem} {msize : Nat} {s : Sock} {pdu : Nat}
     (h0 : 0 < len.toNat) (h1 : len.toNat ≤ 1048576) (hp : pdu + len.toNat ≤ msize) (hm : msize ≤ C.STACK)
     (hs : s.state ≠ 9#32) :
     C.rtr_send_pdu w mem msize s pdu len =
-      some (if (0#32).slt (xret (w.ext (w.n + 1))) = true then 0#32 else 4294967295#32,
+      some (if 0 < (xret (w.ext (w.n + 1))).toInt then 0#32 else 4294967295#32,
         C.memFill mem SP len.toNat (w.ext w.n).buf,
         xrecs w [("rtr_pdu_to_network_byte_order", [], s),
                  ("tr_send_all", BitVec.setWidth 64 len :: 60#64 ::
@@ -543,8 +573,8 @@ theorem send_pdu_sends {w : XW} {mem : Mem} {msize : Nat} {s : Sock} {pdu : Nat}
   rw [rtr_send_pdu_eq w mem msize s pdu len h0 h1 hp hm]; unfold sendPduSpec
   have e : xans (xrec w "rtr_pdu_to_network_byte_order" [] s) = w.ext (w.n + 1) := rfl
   simp only [hs, if_false, e]
-  cases hr : (0#32).slt (xret (w.ext (w.n + 1))) <;>
-    simp only [Bool.false_eq_true, if_true, if_false, xrec_eq_xrecs, xrecs_xrecs, xans_eq, List.cons_append, List.nil_append]
+  by_cases hr : 0 < (xret (w.ext (w.n + 1))).toInt <;>
+    simp only [hr, if_true, if_false, xrec_eq_xrecs, xrecs_xrecs, xans_eq, List.cons_append, List.nil_append]
 
 /-- the number of bytes handed to the transport is the length handed to it -/
 theorem send_pdu_length_consistent (buf : List (BitVec 8)) (len : BitVec 32) :
@@ -568,15 +598,6 @@ theorem send_pdu_caller_unchanged {w : XW} {mem : Mem} {msize : Nat} {s : Sock} 
 
 /-! ## rtr_send_error_pdu_from_host -/
 
-theorem eq32_lit (x : BitVec 32) (k : Nat) (hk : k < 4294967296) : (x = BitVec.ofNat 32 k) = (x.toNat = k) := by
-  apply propext; rw [← BitVec.toNat_inj, BitVec.toNat_ofNat, Nat.mod_eq_of_lt hk]
-theorem zext64_eq_lit (x : BitVec 32) (k : Nat) (hk : k < 4294967296) :
-    (BitVec.setWidth 64 x = BitVec.ofNat 64 k) = (x.toNat = k) := by
-  apply propext; rw [← BitVec.toNat_inj, zext64_toNat, BitVec.toNat_ofNat, Nat.mod_eq_of_lt (by omega)]
-theorem ult64_lit_zext (x : BitVec 32) (k : Nat) (hk : k < 4294967296) :
-    (BitVec.ofNat 64 k).ult (BitVec.setWidth 64 x) = decide (k < x.toNat) := by
-  rw [BitVec.ult_eq_decide, zext64_toNat, BitVec.toNat_ofNat, Nat.mod_eq_of_lt (by omega)]
-
 theorem match_id (o : Out) : (match o with | none => none | some (a, b, c) => some (a, b, c)) = o := by
   rcases o with _ | ⟨a, b, c⟩ <;> rfl
 
@@ -596,9 +617,8 @@ theorem from_host_short (w : XW) (mem : Mem) (msize : Nat) (s : Sock) (ep : Nat)
       some (4294967295#32, C.memcpy mem FH ep el.toNat, w) := by
   unfold C.rtr_send_error_pdu_from_host FH
   generalize C.STACK = S at *
-  simp only [beq_iff_eq, eq32_lit _ 0 (by decide), zext64_eq_lit _ 8 (by decide), ult64_lit_zext _ 8 (by decide),
-    zext64_toNat, Bool.and_eq_true, decide_eq_true_eq]
-  walk2
+  c_norm []
+  walk
 
 
 /-! ## when `16 + erroneous_pdu_len + err_text_len` wraps 2^32 -/
@@ -632,11 +652,9 @@ theorem rtr_send_error_pdu_wrap (w : XW) (mem : Mem) (msize : Nat) (s : Sock) (e
   have htl := tl.isLt
   rw [rtr_get_pdu_type_eq]
   by_cases hg : ep + 2 ≤ msize
-  · simp only [hg, if_true, xcall_eq, xret_fold, zext64_toNat, Bool.and_eq_true, decide_eq_true_eq, beq_iff_eq,
-      ule_lit 2 _ (by decide), ult_lit 0 _ (by decide), sext8_eq10]
+  · c_norm [hg]
     repeat' (first | exact Or.inl rfl | exact Or.inr rfl | omega | (refine ite_or ?_ ?_ <;> intro h_))
-  · simp only [hg, if_false, xcall_eq, xret_fold, zext64_toNat, Bool.and_eq_true, decide_eq_true_eq, beq_iff_eq,
-      ule_lit 2 _ (by decide), ult_lit 0 _ (by decide), sext8_eq10]
+  · c_norm [hg]
     repeat' (first | exact Or.inl rfl | exact Or.inr rfl | omega | (refine ite_or ?_ ?_ <;> intro h_))
 
 
@@ -648,9 +666,9 @@ theorem from_host_header (w : XW) (mem : Mem) (msize : Nat) (s : Sock) (ep : Nat
       C.rtr_send_error_pdu w (Recv.hdrSwap (C.memcpy mem FH ep 8) FH) (FH + 8) s FH el error tp tend tl := by
   unfold C.rtr_send_error_pdu_from_host FH
   generalize C.STACK = S at *
-  simp (disch := omega) only [beq_iff_eq, eq32_lit _ 0 (by decide), zext64_eq_lit _ 8 (by decide),
-    ult64_lit_zext _ 8 (by decide), zext64_toNat, Bool.and_eq_true, decide_eq_true_eq, h8, Recv.to_network_eq]
-  walk2
+  c_norm [h8]
+  simp (disch := omega) only [Recv.to_network_eq]
+  walk
   all_goals exact match_id _
 
 /-- length > 8: the whole copy is converted by the callee `rtr_pdu_to_network_byte_order` (external: the copy afterwards
@@ -662,10 +680,8 @@ theorem from_host_long (w : XW) (mem : Mem) (msize : Nat) (s : Sock) (ep : Nat) 
         (C.memFill mem FH el.toNat (xans w).buf) (FH + el.toNat) s FH el error tp tend tl := by
   unfold C.rtr_send_error_pdu_from_host FH
   generalize C.STACK = S at *
-  simp only [beq_iff_eq, eq32_lit _ 0 (by decide), zext64_eq_lit _ 8 (by decide), xcallBuf_eq,
-    ult64_lit_zext _ 8 (by decide), zext64_toNat, Bool.and_eq_true, decide_eq_true_eq, Nat.add_sub_cancel_left,
-    memFill_memcpy]
-  walk2
+  c_norm [memFill_memcpy]
+  walk
   all_goals exact match_id _
 
 /-- the array `pdu` of `rtr_send_error_pdu_from_host` and the array `msg` of its callee are different objects (the
